@@ -6,5 +6,5 @@ P="$1"; shift
 W=$(mktemp -d /tmp/mut.XXXXXX)
 git -C /repo worktree add -q --detach "$W/wt" HEAD || exit 2
 if ! git -C "$W/wt" apply "$P"; then echo "patch does not apply"; git -C /repo worktree remove --force "$W/wt"; rm -rf "$W"; exit 2; fi
-for id in "$@"; do (cd /verif && VERIF_REPO="$W/wt" VERIF_OUT="$W/out" ./check "$id" 2>&1 | grep -E "VIOLATION|KNOWN|MACHINERY|^C[0-9]+:" | cut -c1-200 | head -${MUT_LINES:-6}); done
+for id in "$@"; do (cd /verif && VERIF_REPO="$W/wt" VERIF_OUT="$W/out" ./check "$id" 2>&1 | grep -E "^VIOLATION|MACHINERY|^C[0-9]+:" | cut -c1-200 | head -${MUT_LINES:-6}); done
 git -C /repo worktree remove --force "$W/wt"; rm -rf "$W"
